@@ -32,7 +32,7 @@ MkProto(c, Shape) ==
               [hi |-> [i \in 1..Len(c) |-> c[i][1]], lo |-> [i \in 1..Len(c) |-> c[i][2]],
                nreg |-> Shape.nreg, nup |-> Shape.nup, np |-> Shape.np, va |-> Shape.va,
                nline |-> Len(c), ndbgup |-> Shape.nup, kt |-> Shape.kt, ks |-> Shape.ks, sk |-> Shape.sk,
-               pnup |-> Shape.pnup]
+               pnup |-> Shape.pnup, ls |-> <<>>, le |-> <<>>]
 
 (* function entry (initCallFrame): the caller's arguments fill R(0)..R(np-1), *)
 (* with VarArgHasArg the arg table / nil is stored in R(np), then the top is  *)
